@@ -287,8 +287,51 @@ func runC08(r *ev.Run) {
 					}
 					if !sameSet(gs, ws) && len(m.onlyInCompacted) == 0 {
 						// ties at the k-th distance make the small-k set ambiguous: compare only when the boundary is clear
-						if k != bigK && boundaryTie(want, k) {
-							r.Count("probes:vector-only-small-k-tie(skipped)", 1)
+						if k != bigK {
+							// small k: ties at the k-th distance (the same vector under two ids, symmetric points) make
+							// the id set ambiguous, but not all of it. From the reference index's COMPLETE listing: with dk =
+							// the k-th smallest distance, every document strictly nearer than dk belongs to any correct
+							// answer, nothing farther than dk does, and the answer has min(k, n) members.
+							all, err := ref.idx.NewSearch().WithVector(cloneF32(q)).WithK(bigK).Execute()
+							if err != nil {
+								rep("store.search-error", "reference index: "+err.Error())
+								continue
+							}
+							var dists []float64
+							dist := map[uint32]float64{}
+							for _, x := range all {
+								if !m.onlyInCompacted[x.ID] {
+									dists = append(dists, x.Score)
+									dist[x.ID] = x.Score
+								}
+							}
+							sort.Float64s(dists)
+							if len(m.onlyInCompacted) > 0 || len(dists) == 0 {
+								continue
+							}
+							wantN := min(k, len(dists))
+							dk := dists[wantN-1]
+							bad := ""
+							if len(gs) != wantN {
+								bad = fmt.Sprintf("%d results, want %d", len(gs), wantN)
+							}
+							for id, d := range dist {
+								if d < dk && !gs[id] {
+									bad = fmt.Sprintf("document %d at distance %g, strictly nearer than the k-th distance %g, is missing", id, d, dk)
+								}
+							}
+							for id := range gs {
+								if d, ok := dist[id]; !ok {
+									bad = fmt.Sprintf("document %d is returned but the in-memory index does not hold it", id)
+								} else if d > dk {
+									bad = fmt.Sprintf("document %d at distance %g is returned although the k-th distance is %g", id, d, dk)
+								}
+							}
+							if bad != "" {
+								rep("store.vector-only-idset-differs-from-in-memory-index.small-k", fmt.Sprintf("vector-only query k=%d: %s (store returned %v)", k, bad, sortedKeys(gs)))
+							} else {
+								r.Count("probes:vector-only-small-k-tie-at-the-boundary(either id accepted)", 1)
+							}
 							continue
 						}
 						sig := "store.vector-only-idset-differs-from-in-memory-index"
@@ -361,6 +404,12 @@ func runC08(r *ev.Run) {
 			switch {
 			case c < 9:
 				d := genStoreDoc(rng, p, ids.next(), "h")
+				if live := sortedKeys(m.liveSet()); p.VecKind != "" && len(live) > 0 && rng.IntN(4) == 0 {
+					// the same vector under another id (a re-upload, a near-duplicate document): exact distance ties,
+					// usually across two parts of the store
+					d.Vec = cloneF32(m.live[live[rng.IntN(len(live))]].Vec)
+					r.Count("ops:add-with-the-vector-of-another-document", 1)
+				}
 				before := s.VerifMemtableCount()
 				var err error
 				if rng.IntN(4) == 0 {
